@@ -36,6 +36,7 @@ type Options struct {
 	DropDecls map[string]bool   // top-level identifiers whose declarations are removed (context aliases)
 	SkipFile  func(name string) bool
 	Tag       string // prefix for site names
+	WithTests bool   // include _test.go files (passthrough validation)
 }
 
 // Result carries the type-checked package so that dependants can import it.
@@ -80,7 +81,7 @@ func Instrument(fset *token.FileSet, opt Options) (*Result, error) {
 	var names []string
 	for _, e := range ents {
 		n := e.Name()
-		if e.IsDir() || !strings.HasSuffix(n, ".go") || strings.HasSuffix(n, "_test.go") {
+		if e.IsDir() || !strings.HasSuffix(n, ".go") || (strings.HasSuffix(n, "_test.go") && !opt.WithTests) {
 			continue
 		}
 		if opt.SkipFile != nil && opt.SkipFile(n) {
@@ -304,19 +305,25 @@ func (rw *rewriter) rewriteFile() error {
 		}
 		astutil.AddNamedImport(rw.fset, f, n, p)
 	}
+	// the pass rewrites calls away from these two packages only; an import that became unused goes
 	for _, is := range append([]*ast.ImportSpec(nil), f.Imports...) {
 		if is == nil {
 			continue
 		}
 		p, _ := strconv.Unquote(is.Path.Value)
-		if is.Name != nil && (is.Name.Name == "_" || is.Name.Name == ".") {
+		if p != "runtime" && p != "reflect" && len(rw.opt.DropDecls) == 0 {
+			continue
+		}
+		name := p[strings.LastIndex(p, "/")+1:]
+		if is.Name != nil {
+			name = is.Name.Name
+		}
+		if name == "_" || name == "." || usesName(f, name) {
 			continue
 		}
 		if is.Name != nil {
-			if !astutil.UsesImport(f, p) && !usesName(f, is.Name.Name) {
-				astutil.DeleteNamedImport(rw.fset, f, is.Name.Name, p)
-			}
-		} else if !astutil.UsesImport(f, p) {
+			astutil.DeleteNamedImport(rw.fset, f, is.Name.Name, p)
+		} else {
 			astutil.DeleteImport(rw.fset, f, p)
 		}
 	}
